@@ -364,6 +364,46 @@ fn check_triple(a: &Type, b: &Type, c_: &Type, obs: &mut Obs) {
     }
 }
 
+// ---------------------------------------------------------------- literal castability at the declaration entry point
+//
+// The clause "literal castability … never allows float or complex into an integer target or complex
+// into a float target" is also observed where the front end applies it: `T tgt = <literal>;`.
+
+const LIT_TARGETS: &[&str] = &["int", "int[8]", "int[64]", "uint", "uint[16]", "uint[64]", "float", "float[32]", "const uint", "const int[32]", "const float[64]"];
+const LIT_VALUES: &[(&str, &str)] = &[("2.5", "float"), ("1e3", "float"), ("-2.5", "float"), (".5", "float"), ("2.5im", "complex"), ("-1.5im", "complex"), ("1e1 im", "complex")];
+
+fn literal_decl_case(i: usize, obs: &mut Obs) {
+    let t = LIT_TARGETS[i % LIT_TARGETS.len()];
+    let (lit, kind) = LIT_VALUES[(i / LIT_TARGETS.len()) % LIT_VALUES.len()];
+    let integer_target = t.contains("int");
+    if !integer_target && kind == "float" {
+        obs.done(false);
+        return;
+    }
+    let src = format!("{t} tgt = {lit};\n");
+    obs.fp.str(&src);
+    let r = guard(|| {
+        let res = oq3_semantics::syntax_to_semantics::parse_source_string(&src, Some("c20.qasm"));
+        let kinds: Vec<String> = res.semantic_errors().iter().map(|e| format!("{:?}", e.kind())).collect();
+        (res.any_syntax_errors(), kinds)
+    });
+    match r {
+        Err(p) => obs.inconclusive(format!("analysis panicked (C03): {}", p.site())),
+        Ok((true, _)) => obs.inconclusive("rejected by the parser (C04)"),
+        Ok((false, kinds)) => {
+            if !kinds.iter().any(|k| k == "IncompatibleTypesError" || k == "CastError") {
+                let tk = if integer_target { "integer" } else { "float" };
+                obs.violate(
+                    format!("declaration-literal-cast/{kind}-literal-into-{tk}-target/accepted"),
+                    format!("{src:?}: accepted without a type diagnostic (diagnostics {kinds:?})"),
+                );
+            }
+            obs.note = format!("{:?}: diagnostics {kinds:?}", src.trim());
+            obs.done(true);
+        }
+    }
+}
+
 impl Property for C20 {
     fn id(&self) -> &'static str {
         "C20"
@@ -377,11 +417,16 @@ impl Property for C20 {
         if tier == Tier::Thorough {
             v.push(Stream::new("all-ordered-triples(row per case)", n * n, true, |i| format!("trow:{i}")));
         }
+        v.push(Stream::new("literal-castability-at-declarations", (LIT_TARGETS.len() * LIT_VALUES.len()) as u64, true, |i| format!("lit:{i}")));
         v
     }
     fn check(&self, input: &str, obs: &mut Obs) {
         let space = type_space();
         let n = space.len();
+        if let Some(rest) = input.strip_prefix("lit:") {
+            literal_decl_case(rest.parse().unwrap_or(0), obs);
+            return;
+        }
         if let Some(rest) = input.strip_prefix("row:") {
             let i: usize = rest.parse().unwrap();
             for b in &space {
